@@ -8,13 +8,18 @@ def H(name, desc): return Harness(name, "./circuit", OV, expect_reach=["accepted
 hs = [H("verifC16A", "1+1 input bits, one gate of any type: EVERY byte of the evaluator->garbler direction (OT wire range offset/count, returned label) xored with an arbitrary symbolic mask"),
       H("verifC16Wide8", "8 output bits: one returned label (arbitrary index) xored with an arbitrary 16-byte mask"),
       H("verifC16Wide66", "66 output bits (more than one machine word): one returned label (arbitrary index) xored with an arbitrary 16-byte mask")]
+for h in hs:
+    if h.name in ("verifC16Wide66",):
+        h.no_anfcheck = True  # 66 x 128-bit label comparisons: the z3 re-check of the GF(2) verdict hits the hard solver time-out
 if tier != "quick":
-    hs.append(H("verifC16B", "2+1 input bits, two gates, two outputs: every byte of the evaluator->garbler direction masked"))
+    h130 = H("verifC16Wide130", "130 output bits (three machine words): one returned label (arbitrary index) xored with an arbitrary 16-byte mask")
+    h130.no_anfcheck = True
+    hs.append(h130)
 sys.exit(run_property(
     "C16", tier, hs, "other",
     "The real Garbler/Evaluator session (real p2p.Conn, ideal OT) runs with a tampering transport: bytes in the evaluator->garbler direction are xored with symbolic masks. Obligation: the garbler "
     "reports an error, or returns exactly Compute(x,y), or the mask on a returned label equals the secret offset R (a successful guess, not a transmission fault); and a modified OT wire range is rejected.",
     ["AES uninterpreted; ideal OT; inputs concrete patterns; permute bits of the input labels case-split"],
     ["corruption in the garbler->evaluator direction (key, tables, input labels): its detection rests on AES outputs being unpredictable, which an uninterpreted function does not give",
-     "the streaming session (Program.Stream) and OT message corruption inside a real OT", "stalls / time-outs (a session that blocks forever is reported by the engine as a deadlock, which the harness treats as 'aborted')"],
+     "the streaming session (Program.Stream) and OT message corruption inside a real OT", "two gates with every byte of the evaluator->garbler direction masked (harness verifC16B exists but does not finish within 50 min)", "stalls / time-outs (a session that blocks forever is reported by the engine as a deadlock, which the harness treats as 'aborted')"],
     uses_uf=True, quick_deadline=900, thorough_deadline=3000, parallel=3))
